@@ -438,7 +438,8 @@ func isContainsField(selectionSet ast.SelectionSet, fieldname string) bool {
 	for _, selection := range selectionSet {
 		switch sel := selection.(type) {
 		case *ast.Field:
-			if sel.Name == fieldname {
+			// an aliased field is not available under its own name in the response
+			if sel.Name == fieldname && (sel.Alias == "" || sel.Alias == fieldname) {
 				return true
 			}
 		case *ast.InlineFragment:
